@@ -24,7 +24,7 @@ class C20(Prop):
         "Stgutg.Props.C20.disjointness_needed",
     ]
     # the binary of this domain is built with -race (CGO on); every scenario runs in a child process of it
-    domains = [Domain("conc", 10, 120, race=True)]
+    domains = [Domain("conc", 60, 600, race=True)]
     rule = ("conc: G goroutines (every kind against itself at G=2 and at a random G in 8..64; the SNOW 3G users together; all "
             "kinds together at G=64; random mixes of 1..5 kinds at G=2..64), each goroutine calling the codec / protection / "
             "derivation entry points (NGAP builders + ngap.Encoder/Decoder, aper.Marshal*/Unmarshal*, NAS constructors + "
